@@ -592,6 +592,11 @@ func (s *State) exec(th *Thread, fr *Frame, in ssa.Instruction) {
 		}
 		s.next(fr)
 
+	case *ssa.MakeChan:
+		// channels exist only in native replay code (prelude scheduler); opaque here
+		s.set(fr, x, NativeV{"chan"})
+		s.next(fr)
+
 	case *ssa.SliceToArrayPointer:
 		sl := s.get(fr, x.X).(SliceV)
 		s.set(fr, x, PtrV{Obj: sl.Obj, Off: sl.Off})
